@@ -41,6 +41,8 @@ def panel_kwargs(pd, explicit_model=True, ctor=False):
     else:
         kw["plyts"], kw["laminaprops"] = plyts, props
     kw["offset"] = float(fr(pd["off"]))
+    if pd.get("ortho"):
+        kw["force_orthotropic_laminate"] = True
     y1, y2, b = fr(pd["y1"]), fr(pd["y2"]), fr(pd["b"])
     if not (y1 == 0 and y2 == b):
         kw["y1"], kw["y2"] = float(y1), float(y2)
@@ -69,11 +71,12 @@ def redefine(p, pd):
     kw = panel_kwargs(pd, True, False)
     for k in ("r", "alphadeg", "y1", "y2", "Nxx_cte", "Nyy_cte", "Nxy_cte", "plyt", "laminaprop"):
         setattr(p, k, None)
+    p.force_orthotropic_laminate = False
     for k, v in kw.items():
         setattr(p, k, v)
 
 
-SWEEP_KINDS = ["all", "offset", "geometry", "flags", "stack", "plyts", "material", "radius", "orders", "interval", "preload", "mu"]
+SWEEP_KINDS = ["all", "offset", "geometry", "flags", "stack", "plyts", "material", "radius", "ortho", "orders", "interval", "preload", "mu"]
 
 
 def perturbed(pd, kind="all"):
@@ -104,6 +107,8 @@ def perturbed(pd, kind="all"):
         q["r"] = rat(fr(pd["r"]) + 3)
     if kind == "orders":
         q["m"], q["n"] = pd["m"] + 1, max(1, pd["n"] - 1)
+    if kind == "ortho":
+        q["ortho"] = not pd.get("ortho", False)
     if kind == "interval":
         b = fr(q["b"])
         q["y1"], q["y2"] = (rat(b / 8), rat(b * Fraction(5, 8))) if fr(pd["y1"]) == 0 else (rat(0), rat(b))
@@ -585,10 +590,13 @@ def random_pd(rng, models):
     Ncte = [Fraction(0)] * 3
     if rng.random() < 0.2:
         Ncte = [Fraction(rng.randint(-8, 8), 2) for _ in range(3)]
-    return dict(model=model, a=rat(a), b=rat(b), r=rat(r), sina=rat(sina), cosa=rat(cosa), m=m, n=n,
-                fl=[[[rat(v) for v in ax] for ax in row] for row in fl],
-                stack=c01.enc_stack(stack), off=rat(off), y1=rat(y1), y2=rat(y2),
-                mu=rat(Fraction(rng.randint(1, 40), 8)), Ncte=[rat(v) for v in Ncte])
+    pd = dict(model=model, a=rat(a), b=rat(b), r=rat(r), sina=rat(sina), cosa=rat(cosa), m=m, n=n,
+              fl=[[[rat(v) for v in ax] for ax in row] for row in fl],
+              stack=c01.enc_stack(stack), off=rat(off), y1=rat(y1), y2=rat(y2),
+              mu=rat(Fraction(rng.randint(1, 40), 8)), Ncte=[rat(v) for v in Ncte])
+    if rng.random() < 0.15:
+        pd["ortho"] = True            # force_orthotropic_laminate
+    return pd
 
 
 def c01_dy(rng, lo, hi, bits):
@@ -604,7 +612,7 @@ def random_req(rng, pd, q):
     if q in ("k0", "kG0", "kM") and rng.random() < 0.25:
         r["nofin"] = True
     if q in STUDY_QS and rng.random() < 0.4:
-        r["sweep"] = rng.choice(SWEEP_KINDS if q in ("k0", "kG0", "kM") else SWEEP_KINDS[:8])
+        r["sweep"] = rng.choice(SWEEP_KINDS if q in ("k0", "kG0", "kM") else SWEEP_KINDS[:9])
     if q in ("k0", "kG0", "kM") and rng.random() < 0.3:
         off = rng.randint(1, 9)
         r.update(size=size + off + rng.randint(0, 7), row0=off, col0=off)
@@ -780,7 +788,7 @@ def run_prop(prop, qs, tier, seed, build, nrand_quick=40, nrand_thorough=600, wh
                 if pd["n"] == 5:                            # exactly the exactness bound of each direction, by default
                     r["extra"], r["dflt"] = [0, 0], True
             if k % 2 == 1 and r["q"] in STUDY_QS and not r.get("coff"):
-                kinds = SWEEP_KINDS if r["q"] in ("k0", "kG0", "kM") else SWEEP_KINDS[:8]
+                kinds = SWEEP_KINDS if r["q"] in ("k0", "kG0", "kM") else SWEEP_KINDS[:9]
                 r["sweep"] = kinds[(k // 2) % len(kinds)]
         try:
             obs, ok = observe(pd, r, fresh_model=(k % 3 != 0))
